@@ -366,6 +366,28 @@ func runC19(p *core.Prog, r *core.Report, tier string) {
 							first := strings.SplitN(format, ".", 2)[0]
 							okLeaf = first != "" && !strings.Contains(first, "%") && !strings.HasSuffix(format, ".")
 						}
+					} else if callee := x.Call.StaticCallee(); callee != nil && len(callee.Blocks) > 0 && callee.Signature.Results().Len() == 1 {
+						// a helper that works the path out: every value it can return is a well-formed path (or "")
+						okLeaf = true
+						for _, ret := range core.ReturnsOf(callee) {
+							for _, rl := range core.PhiLeaves(ret.Results[0], ret) {
+								good := false
+								switch y := rl.V.(type) {
+								case *ssa.Const:
+									good = true
+								case *ssa.Call:
+									if strings.HasSuffix(core.CalleeName(&y.Call), "fmt.Sprintf") {
+										if format, ok := constString(y.Call.Args[0]); ok {
+											first := strings.SplitN(format, ".", 2)[0]
+											good = first != "" && !strings.Contains(first, "%") && !strings.HasSuffix(format, ".")
+										}
+									}
+								}
+								if !good {
+									okLeaf = false
+								}
+							}
+						}
 					}
 				case *ssa.BinOp:
 					// "<literal>." + part, where control only arrives with part equal to a non-empty constant
